@@ -578,14 +578,18 @@ package commitlog
 //@ func (*segment).ReadAt serves C03
 //@   returns (n, err)
 //@   requires s != nil
+//@   assumes s.log != nil && fileSize(s.log) == s.position
 //@   ensures 0 <= n && n <= len(p)
+//@   ensures [no-end-of-file-within-the-log] off >= 0 && off + len(p) <= old(s.position) ==> err != io.EOF
 // readLoop: in the watermark's segment a read never extends beyond the watermark's byte position
 //@ func min serves C03
 //@   modifies nothing
 //@   ensures result == (x < y ? x : y)
 //@ func (*committedReader).readLoop serves C03
 //@   requires r != nil && r.cl != nil && r.seg != nil
-//@   loop 1 invariant n >= 0 && r.seg != nil
+//@   assumes r.pos >= 0 && (r.hwSeg != nil ==> r.hwPos <= r.hwSeg.position)
+//@   loop 1 invariant n >= 0 && r.seg != nil && r.pos >= 0 && (r.hwSeg != nil ==> r.hwPos <= r.hwSeg.position)
+//@   call findSegmentByBaseOffset requires [does-not-walk-past-the-watermark-segment] r.seg != r.hwSeg
 //@   call (*segment).ReadAt requires [from-reader-position] arg0 == r.seg && arg2 == r.pos
 //@   call (*segment).ReadAt requires [not-beyond-hw-position] r.seg == r.hwSeg ==> r.pos + len(arg1) <= r.hwPos
 //@   call getHWPos requires [limit-at-current-hw] arg1 == r.hw
@@ -679,6 +683,7 @@ package commitlog
 // findSegmentIndexByTimestamp: the first segment whose first message is newer than the timestamp (an empty segment -
 // only the active one can be - counts as newer than everything)
 //@ axiom io.EOF != nil
+//@ axiom ErrSegmentClosed != io.EOF && ErrSegmentReplaced != io.EOF
 //@ func findSegmentIndexByTimestamp$1 serves C10
 //@   preserves [no-error-for-an-empty-segment] err != io.EOF
 //@   assumes 0 <= i && i < len(segments) && segments[i] != nil && segments[i].Index != nil && segments[i].Index.position >= 0
@@ -736,7 +741,9 @@ package commitlog
 //@   assumes forall x *segment, i int64, j int64 {entryOffAt(x.Index, i), entryOffAt(x.Index, j)} :: x != nil && 0 <= i && i < j && j < entryCount(x.Index) ==> entryOffAt(x.Index, i) < entryOffAt(x.Index, j)
 //@   assumes forall x *segment, i int64, j int64 {entryPosAt(x.Index, i), entryPosAt(x.Index, j)} :: x != nil && 0 <= i && i < j && j < entryCount(x.Index) ==> entryPosAt(x.Index, i) + entrySizeAt(x.Index, i) <= entryPosAt(x.Index, j)
 //@   assumes forall x *segment, i int64 {entrySizeAt(x.Index, i)} :: x != nil && 0 <= i && i < entryCount(x.Index) ==> entrySizeAt(x.Index, i) >= 0
+//@   assumes forall x *segment, i int64 {entryPosAt(x.Index, i)} :: x != nil && 0 <= i && i < entryCount(x.Index) ==> entryPosAt(x.Index, i) >= 0 && entryPosAt(x.Index, i) + entrySizeAt(x.Index, i) <= x.position
 //@   ensures [in-range] err == nil ==> 0 <= idx && idx < len(segments)
+//@   ensures [limit-within-the-segment] err == nil ==> 0 <= pos && pos <= segments[idx].position
 //@   ensures [nothing-above-the-watermark-is-covered] err == nil ==> (forall i int64 :: 0 <= i && i < entryCount(segments[idx].Index) && entryOffAt(segments[idx].Index, i) > hw ==> entryPosAt(segments[idx].Index, i) >= pos)
 //@   ensures [everything-up-to-the-watermark-is-covered] err == nil ==> (forall i int64 :: 0 <= i && i < entryCount(segments[idx].Index) && entryOffAt(segments[idx].Index, i) <= hw ==> entryPosAt(segments[idx].Index, i) + entrySizeAt(segments[idx].Index, i) <= pos)
 
